@@ -23,3 +23,13 @@ claim('C05',
       'control symbol as a single-token argument) that the solver enumerates through the branch structure.',
       'Trusts CrossHair/z3; bounds on length, the skeleton and base-document lists in props/C05.py and vlib/parsefam.py.',
       'DESIGN.md section 4 C05')
+claim('C06',
+      'Bounded-exhaustive symbolic execution of the real parser in tolerant mode under a step budget: for every Unicode '
+      'string up to the stated length and pinned skeletons with a free hole, no exception, termination, a node list '
+      'returned, and a structural dump identical to the strict parse whenever strict succeeds; for well-formed base '
+      'documents followed by a stray closing token and free garbage, the top-level nodes of the valid prefix are '
+      'returned unchanged. Right level: non-termination and total loss of output depend on the exact ending of the '
+      'input (a trailing escape character, which token meets the error), which path-exhaustive search covers.',
+      'Trusts CrossHair/z3; step budget 400+60(n+2)^2 token peeks stands for "terminates"; bounds and skeleton lists in '
+      'props/C06.py.',
+      'DESIGN.md section 4 C06')
